@@ -341,28 +341,46 @@ def r5_merge(res, facts):
                 r.ok(site, 'only when the list is empty')
             else:
                 r.violation(site, 'raw addNode into a list not known to be empty', common.file_line(a, c))
+        # the variables by role: the flag is the local that receives the result of findInsertionPoint*(), the insertion point the local that call fills (4th argument)
+        flag_ids, point_ids = set(), set()
+        searches = []
+        for x in walk(a['body']):
+            if x['k'] == 'Bin' and x['op'] == '=':
+                c = strip_casts(x['rhs'])
+                if isinstance(c, dict) and c.get('k') == 'Call' and (c.get('n') or callee(c).split('::')[-1]).startswith('findInsertionPoint'):
+                    l = strip_casts(x['lhs'])
+                    if l is not None and l.get('k') == 'Ref' and l.get('d') == 'local':
+                        flag_ids.add(l['id'])
+                        searches.append((x, c))
+                        if len(c.get('args', [])) >= 4:
+                            p4 = strip_casts(c['args'][3])
+                            if p4 is not None and p4.get('k') == 'Ref':
+                                point_ids.add(p4.get('id'))
+        node_ids = {p['id'] for p in a['params'] if 'XalanNode' in (p.get('ty') or '')}
+        if not flag_ids:
+            raise AnalysisBroken('addNodeInDocOrder: no local receives the result of an insertion-point search')
         for n, c in common.find_call_nodes(cfg, 'insert'):
             if list_of(c.get('obj')) != 'this':
                 continue
             site = 'addNodeInDocOrder: m_nodeList.insert'
             conds = must.get(n.id, [])
-            guarded = any(pp(common.norm_atom(atom, br)[0]) == 'fInsert' and common.norm_atom(atom, br)[1] for atom, br in conds)
+            guarded = any((strip_casts(common.norm_atom(atom, br)[0]) or {}).get('k') == 'Ref' and strip_casts(common.norm_atom(atom, br)[0]).get('id') in flag_ids and
+                          common.norm_atom(atom, br)[1] for atom, br in conds)
             pos = pp(c['args'][0]) if c['args'] else ''
-            if guarded and 'insertionPoint' in pos:
-                r.ok(site, 'at insertionPoint under fInsert == true')
+            at_point = bool(c['args']) and any(y.get('k') == 'Ref' and y.get('id') in point_ids for y in walk(c['args'][0]))
+            if guarded and at_point:
+                r.ok(site, 'at the insertion point the search found, under "the search says insert"')
             else:
-                r.violation(site, 'insert at %s %s: the duplicate / position search result is not what decides the insertion' % (pos, 'under fInsert' if guarded else 'not under fInsert == true'), common.file_line(a, c))
-        # every value fInsert / insertionPoint receive comes from a search over the whole list for this node
-        for x in walk(a['body']):
-            if x['k'] == 'Bin' and x['op'] == '=' and pp(strip_casts(x['lhs'])) == 'fInsert':
-                c = strip_casts(x['rhs'])
-                site = 'addNodeInDocOrder: fInsert = %s' % pp(c)[:60]
-                if isinstance(c, dict) and c.get('k') == 'Call' and (c.get('n') or callee(c).split('::')[-1]).startswith('findInsertionPoint'):
-                    args = [pp(z) for z in c['args'][:4]]
-                    if args == ['node', 'm_nodeList.begin()', 'm_nodeList.end()', 'insertionPoint']:
-                        r.ok(site, 'search over [begin, end) for node')
-                    else:
-                        r.violation(site, 'the search is run with (%s), not over the whole list for the node being added' % ', '.join(args), common.file_line(a, x))
-                else:
-                    r.violation(site, 'fInsert is not the result of an insertion-point search', common.file_line(a, x))
+                r.violation(site, 'insert at %s %s: the duplicate / position search result is not what decides the insertion' %
+                            (pos, 'under the search result' if guarded else 'not under "the search says insert"'), common.file_line(a, c))
+        # every value the flag / the insertion point receive comes from a search over the whole list for this node
+        for x, c in searches:
+            site = 'addNodeInDocOrder: search %s' % (c.get('n') or callee(c).split('::')[-1])
+            args = [strip_casts(z) for z in c['args'][:4]]
+            whole = (len(args) == 4 and args[0] is not None and args[0].get('k') == 'Ref' and args[0].get('id') in node_ids and
+                     pp(args[1]) == 'm_nodeList.begin()' and pp(args[2]) == 'm_nodeList.end()')
+            if whole:
+                r.ok(site, 'search over [begin, end) for the node')
+            else:
+                r.violation(site, 'the search is run with (%s), not over the whole list for the node being added' % ', '.join(pp(z) for z in args), common.file_line(a, x))
     return r
